@@ -922,7 +922,10 @@ struct C13 : World {
           if (!check_cni_payload(e.net, c, line_blank, "NETWORK_ID")) return;
           if (++n_netid > 1) { ctx->fail("oracle:c13-netid-repeat", "two NETWORK_ID events from one %s line", kind_name[c]); return; }
           // quiescence; after a deviation on any carrier one re-announcement is accepted (shared confirmation, DESIGN C13)
-          if (!relaxed && !dirty && !line_blank) { ctx->fail("oracle:c13-netid-repeat", "NETWORK_ID announced again on %s line while every carrier kept sending the same values since the last announcement", kind_name[c]); return; }
+          // (the NETWORK_ID that accompanies an accepted NETWORK event of the same line is part of that announcement: found by the
+          // thorough sweep, one run in 2 000 000 - the NETWORK event ended a suspicion, the run went strict again within the line,
+          // and `dirty` is not kept while relaxed)
+          if (!relaxed && !dirty && !line_blank && !saw_net) { ctx->fail("oracle:c13-netid-repeat", "NETWORK_ID announced again on %s line while every carrier kept sending the same values since the last announcement", kind_name[c]); return; }
           if (dirty && any_net) ctx->count("netid_reannounced");
           dirty = false;
           for (int k = 0; k < NSLOT; k++) nid_wit[k] = (hmask[k] & VBI_EVENT_NETWORK_ID) != 0;
